@@ -592,6 +592,21 @@ func checkC12(c *Check) {
 			} else if rg, ok := n.Iter.(*ssa.Range); !ok || !vField(vParam(nm, 0), "leaves")(rg.X) {
 				okKV = false
 			}
+			if okKV {
+				// no leaf of the route is passed over: an iteration that is entered records the name (a route
+				// whose only leaf is the one skipped would return normally without a name)
+				n := strip(store.Value).(*ssa.Extract).Tuple.(*ssa.Next)
+				skipped := ""
+				for e := range edgesWhere(nm, cBool(vExtract(0, vIs(n))), true) {
+					body := e.B.Succs[e.S]
+					if x, path := (Query{Fn: nm, Avoid: isInstr(store)}).Reach(body, 0, func(in ssa.Instruction) bool {
+						return in == ssa.Instruction(n) || isReturn(in)
+					}); x != nil {
+						skipped = blockPath(path)
+					}
+				}
+				c.Cond(skipped == "", k+":every-leaf-counts", p.Pos(store.Pos()), "an iteration over the route's leaves that is entered records the name", "Name() can pass over a leaf of the route without recording the name: a route that has only such leaves (e.g. one registered for a single method) returns normally and stays unnamed: "+skipped)
+			}
 			if !okKV && vParam(nm, 1)(store.Key) {
 				// leaf, ok := r.leaves[m] on the ok edge (a fixed order of methods instead of the map's order)
 				if e, ok := strip(store.Value).(*ssa.Extract); ok && e.Index == 0 {
